@@ -95,9 +95,10 @@ theorem intersection_is_sliced_join (db : Db) (column : Py.Str) (mnames : List P
           | none => []))) := by
   unfold getIntersection
   have hx' : (!db.extra.isEmpty) = false := by simp [hx]
-  simp only [hx', Bool.false_eq_true, if_false, hm]
+  obtain ⟨m', hm', hj⟩ := matchCols_some db mnames m hm
+  simp only [hx', Bool.false_eq_true, if_false, hm']
   rw [hc]
-  simp only [hnr, Bool.false_eq_true, if_false]
+  simp only [hnr, Bool.false_eq_true, if_false, hj]
   rfl
 
 /-- **the intersected database**: `intersect(match)` holds one table per structure, with the structure's name;
@@ -116,8 +117,9 @@ theorem intersect_tables (rt : Table → Table) (db db' : Db) (mnames : List Py.
   intro joined
   unfold Model.intersect at h
   split_ifs at h with h1
-  rw [hm] at h
-  simp only at h
+  obtain ⟨m', hm', hj⟩ := matchCols_some db mnames m hm
+  rw [hm'] at h
+  simp only [hj] at h
   split_ifs at h with h2
   injection h with h; subst h
   refine ⟨by simp, ?_⟩
